@@ -1955,6 +1955,8 @@ impl TypeChecker {
 
             (Type::Tuple(a), Type::Float | Type::Int) => {
                 for a in a.iter() {
+                    // The elements need the constraint as well - they might be unknown for now.
+                    self.add_constraint(*a, span, Constraint::DivTop(b));
                     self.div(span, ctx, *a, b)?;
                 }
                 Ok(())
